@@ -446,8 +446,8 @@ TRIMMERS = ("trim_matches", "trim_start_matches", "trim_end_matches", "trim", "t
             "replace", "replacen", "split_off", "truncate", "retain")
 
 
-def rule_trim(ctx, rep):
-    r = rep.rule("R-C09-trim", "inside the grammar, literal text taken from a token is never passed through a content-dependent trimming/replacing "
+def rule_trim(ctx, rep, rid="R-C09-trim"):
+    r = rep.rule(rid, "inside the grammar, literal text taken from a token is never passed through a content-dependent trimming/replacing "
                                "function (trim*, strip_*, replace*, retain): such calls remove or alter characters that belong to the literal's value",
                  floor=150, floor_what="grammar functions scanned")
     from rules.c08 import derives_from_token_text
